@@ -217,6 +217,9 @@ def run_shard(spec_, res):
     for T in spec_["types"]:
         run_type(res, T, rng, spec_["tier"])
         res.count("types_visited")
+    # the labelled aliases of a MetaModule's exposed controllers are assignment paths to controllers as well
+    from .. import aliasprobe
+    aliasprobe.run(res, PROPERTY, random.Random(spec_["seed"] + 5), 40 if spec_["tier"] == "quick" else 400, domain=True)
     res.exhaustive = True
 
 
